@@ -11,7 +11,6 @@ import (
 	"context"
 	"encoding/json"
 	"fmt"
-	"math"
 	"math/rand"
 	"os"
 	"path"
@@ -216,83 +215,6 @@ type vfc10Req struct {
 	later      bool   // the same selectors were already issued with another range
 }
 
-// vfc10SessionRanges draws the ranges of one selector session: the same selectors are issued with
-// every range in order, so index caches filled under one range are read under another.
-func vfc10SessionRanges(rng *rand.Rand, fx *vfc07Fixture) (string, [][2]int64) {
-	slotTime := func() int64 {
-		t := fx.tmin + rng.Int63n(fx.tmax-fx.tmin+1)
-		return t - t%vfc07Step
-	}
-	narrow := func() [2]int64 {
-		x := slotTime()
-		if rng.Intn(3) == 0 {
-			x = fx.edges[rng.Intn(len(fx.edges))]
-		}
-		return [2]int64{x, x + []int64{0, vfc07Step, 3 * vfc07Step, 8 * vfc07Step}[rng.Intn(4)]}
-	}
-	wide := func() [2]int64 {
-		switch rng.Intn(3) {
-		case 0:
-			return [2]int64{math.MinInt64, math.MaxInt64}
-		case 1:
-			return [2]int64{fx.tmin - int64(rng.Intn(3))*vfc07Step, fx.tmax + int64(rng.Intn(3))*vfc07Step}
-		default:
-			return [2]int64{fx.tmin, fx.tmax}
-		}
-	}
-	free := func() [2]int64 { a, b := fx.vfc07Range(rng); return [2]int64{a, b} }
-	switch rng.Intn(6) {
-	case 0:
-		return "single", [][2]int64{free()}
-	case 1:
-		out := [][2]int64{narrow()}
-		if rng.Intn(2) == 0 {
-			out = append(out, narrow())
-		}
-		return "narrow-then-wide", append(out, wide())
-	case 2:
-		out := [][2]int64{wide(), narrow()}
-		if rng.Intn(2) == 0 {
-			out = append(out, narrow())
-		}
-		return "wide-then-narrow", out
-	case 3:
-		var out [][2]int64
-		for i := 0; i < 2+rng.Intn(3); i++ {
-			out = append(out, narrow())
-		}
-		return "disjoint-windows", out
-	case 4: // nested ranges growing from one point to everything
-		x := slotTime()
-		out := [][2]int64{{x, x}}
-		for _, d := range []int64{2, 10} {
-			if rng.Intn(3) != 0 {
-				out = append(out, [2]int64{x - d*vfc07Step, x + d*vfc07Step})
-			}
-		}
-		return "growing", append(out, wide())
-	default:
-		var out [][2]int64
-		for i := 0; i < 2+rng.Intn(3); i++ {
-			out = append(out, free())
-		}
-		return "free-ranges", out
-	}
-}
-
-// vfc10Tune sets the request-time knobs of the store (they are read at the start of every call).
-func vfc10Tune(rng *rand.Rand, st *BucketStore) string {
-	st.enabledLazyExpandedPostings = rng.Intn(3) != 0
-	st.seriesMatchRatio = []float64{0.5, 0.99, 0.999}[rng.Intn(3)]
-	st.postingGroupMaxKeySeriesRatio = []float64{0, 0, 0.02, 2}[rng.Intn(4)]
-	st.seriesBatchSize = []int{1, 3, 10000}[rng.Intn(3)]
-	lazy := "off"
-	if st.enabledLazyExpandedPostings {
-		lazy = "on"
-	}
-	return fmt.Sprintf("lazy=%s ratio=%v keys=%v batch=%d", lazy, st.seriesMatchRatio, st.postingGroupMaxKeySeriesRatio, st.seriesBatchSize)
-}
-
 // vfc10Mutate is one step of a fixture history: 1..2 blocks (oldest / middle / newest, drawn by
 // position in time order) disappear from the bucket - deleted outright or marked for deletion
 // (the stores' meta fetchers ignore marked blocks, delay 0) -, sometimes a new block is appended
@@ -475,7 +397,7 @@ func vfc10RunFixture(t *testing.T, r *vfkit.Run, c int, rng *rand.Rand, nReq int
 			} else {
 				ms = vfc07GenMatchers(rng, fx.u, 0.1)
 			}
-			pattern, ranges := vfc10SessionRanges(rng, fx)
+			pattern, ranges := vfc07SessionRanges(rng, fx)
 			for i, rg := range ranges {
 				want, err := vfc10Reference(refs, vfc07Proms(ms), rg[0], rg[1])
 				if err != nil {
